@@ -403,9 +403,10 @@ TSinkCall ==
 
 \* ---------------------------------------------------------------- other lines
 TOther ==
-  /\ More /\ Ev.ev \notin {"Reset", "New", "Add", "Write", "Close", "Read", "Rows", "Foreign", "Expect", "Regen", "Pair", "Intro", "Cli", "Sched", "Stress", "SinkRun", "SinkCall"}
+  /\ More /\ Ev.ev \notin {"Reset", "New", "Add", "Write", "Close", "Read", "Rows", "Foreign", "Expect", "Regen", "Pair", "Intro", "Cli", "Sched", "Stress", "SinkRun", "SinkCall", "Bulk", "TruncSweep"}
   /\ l' = l + 1
   /\ Chk("HARNESS", "DriverPanic", Ev.ev # "DriverPanic")
+  /\ Chk("HARNESS", "HarnessError", Ev.ev # "HarnessError")
   /\ UNCHANGED <<caseId, schema, cols, maxPage, codecN, recs, batches, snk, wc, faultK, rowsTab, clean>>
 
 TDone == /\ l = Len(Trace) + 1 /\ PrintT(<<"TRACEDONE", Len(Trace)>>) /\ UNCHANGED vars
